@@ -33,6 +33,10 @@ CHECKS = {
    text="Same TLA+ spec as C02 (Handshake) with the attacker part: forged Version Negotiation / Retry (invalid tag) / correctly keyed Initial with CONNECTION_CLOSE / replayed client Initial injected after the k-th delivered datagram of either direction, crossed with server configurations (default, Retry, v2-only), client kinds and TLC-enumerated loss / delay schedules; the spec marks the windows in which QUIC cannot tell a forged packet from a genuine one (there the handshake may fail cleanly) and requires an unchanged, successful outcome everywhere else; plus 0-RTT accept / reject scenarios (early data exactly once / never). Model-checked by TLC (network + attacker), real handshakes validated by TLC from wire + API traces.",
    note="Trusted: TLC, the observer's packet forging and parsing, go1.26 synctest + simnet. Long certificate chains and CONNECTION_CLOSE in Handshake / 1-RTT packets are not injected. Resource release after failure is checked only as 'Dial / Accept return within the 15 s scenario deadline'.",
    technique="TLA+ model checking (TLC) with attacker model + TLC-enumerated fault / injection schedules replayed into real handshakes + TLC trace validation"),
+ "C12": dict(engine="AdvertisedLimits", design="5 C12",
+   text="TLA+ spec AdvertisedLimits (advertised value per limit read from the ClientHello on the wire; a conformant peer consumes a limit up to its boundary; no local client error while within, the boundary is reachable, the client's own record equals the wire) model-checked by TLC; a lattice of fingerprint specs (built-in and derived, incl. suppressed parameters) x 7 user Config variants x 11 limit scenarios (stream / connection windows with slow and read-then-stall readers, stream counts, connection IDs incl. Retire-Prior-To replacement at the limit, DATAGRAM size, silence up to the advertised idle timeout) runs as real connections against the in-tree server; traces validated by TLC in collect mode.",
+   note="Trusted: TLC, independent observer, in-tree server as conformant peer (the connection-ID scenario crafts NEW_CONNECTION_ID frames through the server's control-frame queue using the quiescent client state). 4 open known findings: limits are enforced from Config, not from what the spec advertises.",
+   technique="TLA+ model checking (TLC) + configuration lattice executed as real connections + TLC trace validation"),
 }
 NA = {}
 
